@@ -70,6 +70,19 @@ def pExpr : Nat → P (Option Node)
       pure ((do let xs ← xs.mapM id; Det.sum xs), ts)
   | _, _ => none
 
+def pBNode : Nat → P BNode
+  | 0, _ => none
+  | f+1, "F" :: ts => do
+      let (t, ts) ← pNat ts
+      let (k, ts) ← pNat ts
+      let (ps, ts) ← pMany pStr k ts
+      pure (.leaf t ps, ts)
+  | f+1, "G" :: ts => do
+      let (k, ts) ← pNat ts
+      let (subs, ts) ← pMany (pBNode f) k ts
+      pure (.comb subs, ts)
+  | _, _ => none
+
 def b2s (b : Bool) : String := if b then "1" else "0"
 def antS (a : Ant) : String := s!"{a.id} {b2s a.hit} {b2s a.hitMC} {b2s a.above}"
 
@@ -141,6 +154,19 @@ def handle (ts : List String) : String :=
         | none => "bad-op"
       | _ => "bad-op"
     | none => "bad-op"
+  | "bbuild" :: r =>
+    match pBNode 32 r with
+    | some (n, nk :: r2) =>
+      match nk.toNat? with
+      | some nk =>
+        match pMany pStr nk r2 with
+        | some (kw, []) =>
+          match bbuild n kw with
+          | some res => "ok " ++ ";".intercalate (res.map (fun (t, k) => s!"{t}:" ++ ",".intercalate k))
+          | none => "typeerror"
+        | _ => "bad-op"
+      | none => "bad-op"
+    | _ => "bad-op"
   | "build" :: nsub :: r =>
     -- build <nsub> (<nparams> params…)* <nkw> kw…
     match nsub.toNat? with
